@@ -21,7 +21,7 @@ def tier_params(tier):
 
 
 def prepare(repo):
-    build.setup()
+    build.setup(repo)
 
 
 REJECT_SHAPES = [
